@@ -110,6 +110,23 @@ def plan(tier):
     EXTRA.append((dtw, [(p, paths.render(p, "."), paths.render(p, "/"))
                         for p in ptw]))
     bounds["numeric_twins"] = {"documents": len(dtw), "paths": len(ptw)}
+    # a key and its other-type twin in one Hash (1000 / "1000", 0 / "0"):
+    # a search over the key names answers for each key on its own
+    dkt = [("m", ((1000, "x"), ("1000", "y"))), ("m", (("1000", "y"), (1000, "x"))),
+           ("m", ((0, "x"), ("0", "y"), ("a", "z"))),
+           ("m", (("a", ("m", (("0", "y"), (0, "x"), (1000, "w")))),
+                  ("b", ("m", ((1000, "x"), ("1000", "y")))))),
+           ("l", (("m", ((1000, "x"), ("1000", "y"))),
+                  ("m", (("1000", "y"), ("b", "x")))))]
+    skt = [("search", ".", op, term, inv)
+           for op in ("=", "^", "$", "%", "<=", ">=", "=~")
+           for term in ("1000", "0") for inv in (False, True)]
+    pkt = [(s_,) for s_ in skt] + [(n, s_) for n in (("key", "a"), ("all",),
+                                                     ("idx", 0), ("trav",))
+                                  for s_ in skt]
+    EXTRA.append((dkt, [(p, paths.render(p, "."), paths.render(p, "/"))
+                        for p in pkt]))
+    bounds["key_twins"] = {"documents": len(dkt), "paths": len(pkt)}
     if tier != "quick":
         # deeper slices of the space on smaller sub-corpora
         # (a stride of the 4-node documents keeps the tier near 40 minutes:
